@@ -371,6 +371,9 @@ class SNum(Sc):
                 raise ZeroDivisionError('division by zero')
         elif ctx.div_safety:
             safety('div', SBool(b != 0))
+        az = z3.simplify(a)
+        if z3.is_rational_value(az) and az.as_fraction() == 0:
+            return SReal(z3.RealVal(0))        # 0/b = 0 (b != 0 by the safety obligation above)
         return SReal(a / b)
 
     def __truediv__(self, o):
@@ -722,9 +725,56 @@ def _neg_form(xz):
     return None
 
 
+def special_angle(xz):
+    """Fraction c if the angle is identically c*PI as a rational function of its atoms (denominators are
+    non-zero on this path by the division-safety obligations), else None."""
+    if not _looks_nonlinear(xz, 400):
+        if xz.eq(PI):
+            return fractions.Fraction(1)
+        return None
+    from . import pit
+    try:
+        cv = pit.FConv()
+        rf = cv.conv(xz)
+        pi_rf = cv.conv(PI)
+    except (pit.NotPoly, RecursionError):
+        return None
+    if rf.n.is_zero():
+        return fractions.Fraction(0)
+    den = rf.den_poly()
+    if not den.t:
+        return None
+    md, cd = next(iter(sorted(den.t.items())))
+    target = pit._mmul(md, next(iter(pi_rf.n.t)))
+    cn = rf.n.t.get(target)
+    if cn is None:
+        return None
+    c = cn / cd
+    diff = rf.n - pit.FP.const(c) * pi_rf.n * den
+    if diff.is_zero():
+        return c
+    return None
+
+
+def _special_trig(xz, which):
+    c = special_angle(xz)
+    if c is None:
+        return None
+    c2 = c * 2
+    if c2.denominator != 1:
+        return None
+    k = int(c2) % 4
+    ctx.axiom_log.add('cos/sin at integer multiples of PI/2 (exact values)')
+    val = {'cos': [1, 0, -1, 0], 'sin': [0, 1, 0, -1]}[which][k]
+    return SReal(z3.RealVal(val))
+
+
 def scos(x):
     x = lift(x)
     xz = z3.simplify(_toreal(x.z))
+    sp = _special_trig(xz, 'cos')
+    if sp is not None:
+        return sp
     n = _neg_form(xz)
     if n is not None:
         return scos(SReal(n))
@@ -737,6 +787,9 @@ def scos(x):
 def ssin(x):
     x = lift(x)
     xz = z3.simplify(_toreal(x.z))
+    sp = _special_trig(xz, 'sin')
+    if sp is not None:
+        return sp
     n = _neg_form(xz)
     if n is not None:
         return -ssin(SReal(n))
@@ -1018,7 +1071,13 @@ class Cx:
             oz = _toreal(o.z)
             if ctx.div_safety and not z3.is_rational_value(z3.simplify(oz)):
                 safety('div', SBool(oz != 0))
-            return Cx([(r / oz, i / oz, p) for (r, i, p) in self.terms])
+
+            def dv(x):
+                x = z3.simplify(x)
+                if z3.is_rational_value(x) and x.as_fraction() == 0:
+                    return x
+                return x / oz
+            return Cx([(dv(r), dv(i), p) for (r, i, p) in self.terms])
         return self * Cx.lift(o).inv()
 
     def __rtruediv__(self, o):
@@ -1188,9 +1247,23 @@ def check(name, cond, safety=False):
     if os.environ.get('PVC_DUMP'):
         with open(os.path.join(os.environ['PVC_DUMP'], 'vc_%s.smt2' % name.replace('/', '_')), 'w') as f:
             f.write(s.to_smt2())
-    r = s.check()
     backend = 'z3'
     pit_note = None
+    r = None
+    if _looks_nonlinear(cz):
+        # pure rational-function identities are decided by normalisation before any solver is asked
+        from . import pit
+        try:
+            goals_ = pit._conjuncts(cz)
+            if goals_ and all(pit._is_real_eq(g) for g in goals_):
+                ok_, _cv = pit.fast_identity(goals_, entails)
+                if ok_:
+                    r = z3.unsat
+                    backend = 'pit-identity'
+        except (pit.NotPoly, RecursionError):
+            pass
+    if r is None:
+        r = s.check()
     if r == z3.unknown:
         # polynomial-identity back end, then z3 again on the Ackermannised formula with the full budget
         from . import pit
@@ -1232,6 +1305,29 @@ def check(name, cond, safety=False):
         ctx.results.append((name, 'unknown', info))
     # continue the path under the checked fact (standard assert-then-assume)
     ctx.add(cz)
+
+
+def _looks_nonlinear(z, limit=20000):
+    """does the term contain a product of two non-constant factors or a division by a non-constant"""
+    seen = set()
+    stack = [z]
+    n = 0
+    while stack and n < limit:
+        t = stack.pop()
+        if t.get_id() in seen:
+            continue
+        seen.add(t.get_id())
+        n += 1
+        if z3.is_app(t):
+            k = t.decl().kind()
+            if k == z3.Z3_OP_MUL:
+                nc = [c for c in t.children() if not (z3.is_rational_value(c) or z3.is_int_value(c))]
+                if len(nc) >= 2:
+                    return True
+            elif k == z3.Z3_OP_DIV or k == z3.Z3_OP_POWER:
+                return True
+            stack.extend(t.children())
+    return False
 
 
 def entails(f):
